@@ -20,7 +20,8 @@ if isinstance(bp,str): ps=[bp]+ps
 seen=[]
 for p in ps:
     if p not in seen: seen.append(p)
-print(" ".join(seen))
+import os
+print(" ".join(seen[:1] if os.environ.get("ONLY_BREAKS") else seen))
 PY
 )
   if ! git -C /repo apply --check $PWD/$d/patch.diff 2>/dev/null; then echo "$id PATCH-DOES-NOT-APPLY"; continue; fi
